@@ -46,6 +46,7 @@ OBLIGATIONS = [
     "VgiVerif.C07.C07_producer_http",
     "VgiVerif.C07.C07_exchange_pipe",
     "VgiVerif.C07.C07_exchange_http",
+    "VgiVerif.C07.C07_socket_sites_catch_all",
     "VgiVerif.C07.C07_failed_step_writes",
     "VgiVerif.C07.C07_failed_step_reaches_client",
 ]
@@ -59,7 +60,9 @@ TRUSTED = [
 ]
 PARTIAL = ["subprocess transport is not exercised (same code path as pipe)"]
 RULE = (
-    "exception = (class from built-ins / user classes / typed framework errors / classes whose error_kind is not a str or set on "
+    "exception = (class from built-ins / the classes the framework's control flow uses itself (BrokenPipeError, ConnectionResetError, "
+    "ConnectionAbortedError, OSError, EOFError, StopIteration, TimeoutError, ArrowInvalid, ... — each rotated through every site on every "
+    "transport) / user classes / typed framework errors / classes whose error_kind is not a str or set on "
     "the instance, message from {empty, ascii, unicode, newlines, NULs, 100 kB, random}); codec cases add chaining (cause / "
     "context), server id, request id; peer cases enumerate kind placement x extra shape; site cases place one exception at each of "
     "8 dispatch sites of a generated service and run it over {pipe, unix, tcp, shm, http(no cap), http(cap 1 MB, zstd), http(gzip), http(cap 64 KiB), http(cap 1500 B)}, with texts padded "
@@ -116,7 +119,14 @@ class EmptyKindError(Exception):
     error_kind = ""
 
 
+# classes the framework's own control flow also uses (client disconnects, end of stream, IPC errors): raised by an
+# implementation they are implementation errors like any other
+CONTROL_FLOW_CLASSES = ["BrokenPipeError", "ConnectionResetError", "ConnectionAbortedError", "ConnectionRefusedError", "OSError", "EOFError",
+                        "StopIteration", "StopAsyncIteration", "TimeoutError", "ArrowInvalid", "InterruptedError", "BlockingIOError"]
+
 EXTRA_CLASSES: dict[str, type[BaseException]] = {
+    "ConnectionAbortedError": ConnectionAbortedError, "ConnectionRefusedError": ConnectionRefusedError, "StopAsyncIteration": StopAsyncIteration,
+    "InterruptedError": InterruptedError, "BlockingIOError": BlockingIOError,
     "OddKindError": OddKindError, "BytesKindError": BytesKindError, "NoneKindError": NoneKindError,
     "InstanceKindError": InstanceKindError, "SubKinded": SubKinded, "UnicodeNameÉrror": UnicodeNameÉrror,
     "EmptyKindError": EmptyKindError, "OSError": OSError, "LookupError": LookupError, "AssertionError": AssertionError,
@@ -836,6 +846,16 @@ def corpus_excs() -> list[list[dict[str, Any]]]:
     ]
 
 
+def control_flow_rounds() -> list[list[dict[str, Any]]]:
+    """every control-flow class at every one of the 8 sites: rotation r puts class (site + r) mod n at each site"""
+    names = [c for c in CONTROL_FLOW_CLASSES if c in _exc_classes()]
+    return [[{"cls": names[(i + r) % len(names)], "arg": f"impl-raised {names[(i + r) % len(names)]}"} for i in range(8)] for r in range(len(names))]
+
+
+def control_flow_configs() -> list[Config]:
+    return [Config("pipe"), Config("unix"), Config("tcp"), Config("shm"), Config("http", None, None), Config("http", 1_000_000, "zstd")]
+
+
 def long_excs() -> list[dict[str, Any]]:
     """every site raises with a text longer than the 64 KiB cap (and one far longer)"""
     names = ["ValueError", "KindedError", "SessionLostError", "CustomError", "OddKindError", "MethodNotImplementedError", "KeyError", "RuntimeError"]
@@ -852,7 +872,7 @@ def run(ctx: Any) -> None:
     install_recorder()
     rng = ctx.rng
     # 1. codec: every class x fixed messages first, then random
-    n_codec = ctx.budget(1500, 30000)
+    n_codec = ctx.budget(1200, 30000)
     done = 0
     for cls in class_names():
         for arg in MESSAGES:
@@ -871,16 +891,25 @@ def run(ctx: Any) -> None:
     for excs in corpus_excs() + [long_excs()]:
         for cfg in configs():
             site_case(ctx, excs, cfg)
-    for i in range(ctx.budget(8, 220)):
+    for r, excs in enumerate(control_flow_rounds()):
+        # every (class, site) pair on pipe / tcp / http; every third rotation also on unix / shm / http+zstd
+        for k, cfg in enumerate(control_flow_configs()):
+            if cfg.label() in ("pipe", "tcp", "http(cap=None,codec=None)") or r % 3 == k % 3:
+                site_case(ctx, excs, cfg)
+    for i in range(ctx.budget(4, 220)):
         excs = [gen_exc(rng) for _ in range(8)]
         if i % 2:
             excs = stretch(rng, excs)
         for cfg in configs():
             site_case(ctx, excs, cfg)
     # 4. every order of emit / log / finish / raise inside one step
+    cf = [{"cls": c, "arg": f"step-raised {c}"} for c in CONTROL_FLOW_CLASSES if c in _exc_classes()]
     for cfg in opstep_configs():
         for i in range(0, len(STEP_SHAPES), 6):
             opstep_case(ctx, STEP_SHAPES[i:i + 6], corpus_excs()[0], cfg)
+        # the raising shapes again, with the control-flow classes
+        opstep_case(ctx, STEP_SHAPES[:6], cf[:6], cfg)
+        opstep_case(ctx, STEP_SHAPES[:6], cf[6:] + cf[:max(0, 6 - len(cf[6:]))], cfg)
     for _ in range(ctx.budget(3, 120)):
         shapes = [gen_shape(rng) for _ in range(6)]
         excs = [gen_exc(rng) for _ in range(6)]
